@@ -16,6 +16,9 @@ import (
 type C16 struct {
 	Base
 	first      map[string]anchorGhost // iri → (id, time)
+	dataFirst  map[string]time.Time   // canonical bytes of the content hash → block time of its first successful anchoring (any message)
+	genesisIRI map[string]bool        // IRIs that came with the genesis (their content hashes are not known to the ghost)
+	firstTS    int
 	byID       map[string]string      // id → iri
 	att        map[string]time.Time   // iri|attestor → time
 	reg        map[string]bool        // resolver|iri
@@ -55,6 +58,10 @@ func (m *C16) OnGenesis(e *eng.Engine, g map[string]json.RawMessage, s *obs.Snap
 		_ = ids
 	}
 	// the import itself is C09's subject; here the ghost starts from what the imported chain shows
+	m.genesisIRI = map[string]bool{}
+	for iri := range s.V().IDByIRI {
+		m.genesisIRI[iri] = true
+	}
 	m.observe(e, s, "genesis", time.Time{}, true)
 }
 
@@ -231,6 +238,62 @@ func (m *C16) AfterTx(e *eng.Engine, t *eng.TxRec) {
 			}
 		}
 	}
+	// per piece of DATA (content hash bytes, independent of the chain's own IRI encoding): the anchor
+	// timestamp of data that is anchored for the first time is this block's time
+	if m.dataFirst == nil {
+		m.dataFirst = map[string]time.Time{}
+	}
+	firstNow := map[string]bool{}
+	note := func(h interface{ Marshal() ([]byte, error) }, kind string) string {
+		bz, err := h.Marshal()
+		if err != nil {
+			return ""
+		}
+		k := kind + string(bz)
+		if _, ok := m.dataFirst[k]; !ok {
+			m.dataFirst[k] = t.BlockTime
+			firstNow[k] = true
+		}
+		return k
+	}
+	for i, msg := range t.Msgs {
+		switch x := msg.(type) {
+		case *data.MsgAnchor:
+			if x.ContentHash == nil {
+				continue
+			}
+			var k string
+			if x.ContentHash.Graph != nil {
+				k = note(x.ContentHash.Graph, "g")
+			} else if x.ContentHash.Raw != nil {
+				k = note(x.ContentHash.Raw, "r")
+			}
+			if r, ok := t.Resps[i].(*data.MsgAnchorResponse); ok && k != "" && !m.genesisIRI[r.Iri] {
+				m.firstTS++
+				want := m.dataFirst[k]
+				if r.Timestamp == nil || !tsTime(r.Timestamp.Seconds, r.Timestamp.Nanos).Equal(want) {
+					e.Violate("C16", "anchor-timestamp-of-data", fmt.Sprintf("%s: this content hash was first anchored at %s but Anchor answers %v (IRI %s) — the timestamp of different data", where, want, r.Timestamp, r.Iri))
+				}
+			}
+		case *data.MsgAttest:
+			for _, h := range x.ContentHashes {
+				if h != nil {
+					note(h, "g")
+				}
+			}
+		case *data.MsgRegisterResolver:
+			for _, h := range x.ContentHashes {
+				if h == nil {
+					continue
+				}
+				if h.Graph != nil {
+					note(h.Graph, "g")
+				} else if h.Raw != nil {
+					note(h.Raw, "r")
+				}
+			}
+		}
+	}
 	m.observe(e, t.Post, where, t.BlockTime, false)
 	post := t.Post.V()
 	for i, msg := range t.Msgs {
@@ -320,6 +383,7 @@ func (m *C16) AfterTx(e *eng.Engine, t *eng.TxRec) {
 }
 
 func (m *C16) Finish(e *eng.Engine, cov map[string]interface{}) {
+	cov["anchor_timestamps_checked_per_content_hash"] = m.firstTS
 	cov["evaluations"] = m.scans
 	cov["distinct_nontrivial"] = len(m.collided)
 	cov["_keys"] = sortedStr(m.collided)
